@@ -21,6 +21,7 @@ void
 h_update(void)
 {
 	DRBG_PRE();
+	DRBG_MEMZERO();
 	IN(size_t, datalen);
 	__CPROVER_assume(datalen <= HM_DMAX);
 	IN_BYTES(data0, datalen, HM_DMAX);
